@@ -5,7 +5,7 @@
    float32 / byte words, all attributes of one length, indices below it) — no bound on the number of
    models, vertices, attributes, repeated pointers, materials, instances or lights. *)
 From PF Require Import Base.Bytes Formats.Gltf Formats.GltfProofs Formats.GltfExtProofs Formats.GltfDedupProofs
-  Formats.GltfNodeProofs Formats.GltfGlbProofs.
+  Formats.GltfNodeProofs Formats.GltfTexProofs Formats.GltfGlbProofs.
 From Coq Require String.
 Import String.StringSyntax.
 Delimit Scope string_scope with string.
@@ -181,6 +181,16 @@ Theorem material_entry_built : forall sc, scene_ptr_ok sc ->
 Proof. exact material_run. Qed.
 Print Assumptions material_entry_built.
 
+(* textures, images and samplers are stored once: no two images with the same URI, no two samplers equal
+   under Sampler.equal, no two textures equal under Texture.equal; every texture refers to an existing
+   image and sampler *)
+Theorem textures_deduplicated : forall sc,
+  let s := to_summary (run sc) in
+  nodup_str (s_images s) = true /\ nodup_by samp_eqb (s_samplers s) = true /\ nodup_by gtex_eqb (s_texs s) = true /\
+  forallb (fun t => valid_opt (gt_source t) (s_images s) && valid_opt (gt_sampler t) (s_samplers s)) (s_texs s) = true.
+Proof. exact textures_stored_once. Qed.
+Print Assumptions textures_deduplicated.
+
 (* extensions in use are declared: every extension key emitted on a node, a material, a texture
    reference, a texture or at the root is listed in extensionsUsed, and extensionsRequired is a subset *)
 Theorem ext_declared : forall sc,
@@ -222,9 +232,9 @@ Print Assumptions glb_declared_is_actual.
    accessors, payload image and declared bounds of every accessor, primitives (counts, index width and
    range, attribute and index image), extension inclusions, nodes (count, name, TRS, kind, mode, lights,
    scene roots), instances, de-duplication of meshes and materials, material entries, GLB framing.
-   NOT in the record (evaluated by the checker only): content of the texture slots of a material and
-   de-duplication of textures / images / samplers ([tex_matches], "duplicate-entry",
-   "texture-pointer-stored-twice"), "unreferenced-entry", absence of duplicates in extensionsUsed /
+   NOT in the record (evaluated by the checker only): content of the texture slots of a material
+   ([tex_matches]; "duplicate-entry" is the separate theorem textures_deduplicated),
+   "texture-pointer-stored-twice", "unreferenced-entry", absence of duplicates in extensionsUsed /
    extensionsRequired, and the boolean packaging itself. *)
 Theorem gltf_valid_model_partial : forall sc, scene_ok sc -> scene_ptr_ok sc -> doc_valid sc.
 Proof. exact model_doc_valid. Qed.
